@@ -97,7 +97,7 @@ def expected_volume(code, size, nch, kind):
     return out, n
 
 
-def write_slices(d, code, size, kind, names="padded"):
+def write_slices(d, code, size, kind, names="padded", dir_names=None):
     import PIL.Image
     a = [AXIS[ch] for ch in code]
     n = [size[a[0]], size[a[1]], size[a[2]]]
@@ -112,7 +112,8 @@ def write_slices(d, code, size, kind, names="padded"):
         fnames = ["s%04d.png" % i for i in range(n[2])]
     dirs = []
     for di in range(ndirs):
-        sd = os.path.join(d, "slices%d" % di)
+        sd = os.path.join(d, dir_names[di] if dir_names
+                          else "slices%d" % di)
         os.makedirs(sd)
         dirs.append(sd)
         for k in range(n[2]):
@@ -158,7 +159,8 @@ def _eval_in(col, case, d):
     nch = {"uint8": 1, "uint16": 1, "rgb": 3, "two-dirs": 2,
            "rgb-labels": 3, "two-dirs-labels": 2, "rgb-grey": 4,
            "mixed-8-16": 2, "mixed-16-8": 2}[kind]
-    dirs, n = write_slices(d, code, size, kind, case.get("names", "padded"))
+    dirs, n = write_slices(d, code, size, kind, case.get("names", "padded"),
+                           case.get("dir_names"))
     dest = os.path.join(d, "ds")
     os.makedirs(dest)
     scale = {"key": "full", "size": list(size), "chunk_sizes": [list(cs)],
@@ -200,11 +202,20 @@ def _eval_in(col, case, d):
             # the console script (argument parsing and defaults included);
             # "RAS" is its default orientation and is then not passed
             argv = [str(p) for p in dirs] + [dest]
-            if code != "RAS":
-                argv += ["--input-orientation", code]
+            if code != "RAS" or case.get("spelling"):
+                # the script upper-cases the value it parsed; a spelling it
+                # accepts must be converted like the upper-case code
+                argv += ["--input-orientation",
+                         {None: code, "lower": code.lower(),
+                          "mixed": code[0] + code[1:].lower()}[
+                             case.get("spelling")]]
             argv += (["--flat"] if opts["flat"] else []) + (
                 [] if opts["gzip"] else ["--no-gzip"])
             r = sandbox.run_cli("slices_to_precomputed", argv)
+            if case.get("spelling") and r.exc is None and r.status == 2:
+                # the command line refused the spelling (usage error)
+                col.ev(1, 0, "spelling-refused")
+                return
             if r.exc is not None:
                 raise r.exc
             if r.status:
@@ -347,6 +358,15 @@ def cases(tier):
         out.append({"code": code, "size": [4, 3, 5], "chunk": [2, 2, 2],
                     "pixels": "uint8" if i % 2 else "two-dirs",
                     "storage": ("flat-nogzip", "deep-gzip", "sharded")[i % 3],
+                    "via_cli": True})
+        # directories whose command-line order is not their lexicographic
+        # order (each directory is one channel, in the order given); the
+        # orientation code in lower / mixed case
+        out.append({"code": code, "size": [4, 3, 5], "chunk": [2, 2, 2],
+                    "pixels": "two-dirs", "storage": "flat-nogzip",
+                    "dir_names": [["red", "green"], ["ch10", "ch9"],
+                                  ["b", "a"]][i % 3],
+                    "spelling": ["lower", "mixed", None][(i // 3) % 3],
                     "via_cli": True})
     # quick also covers the other two pixel kinds on a few codes
     if tier == "quick":
